@@ -16,6 +16,7 @@ import (
 	"github.com/idena-network/idena-go/common"
 	"github.com/idena-network/idena-go/core/validators"
 	"verif/mc/chainmc"
+	"verif/mc/fsync"
 	"verif/mc/chainprop"
 	"verif/mc/monitors"
 	"verif/mc/replica"
@@ -240,9 +241,12 @@ func main() {
 	if run.Thorough() {
 		depth = 5
 	}
+	// (d) whole fast syncs by the real protocol.fastSync: what the synced node stores for the heights it did not
+	// execute (identity diffs, certificates) is what it serves to the next syncing node
+	fsync.Part(run, false)
 	chainmc.Explore(run, m, chainmc.Config{Depth: depth, Chunk: 3})
 	snapshotPart(run)
-	run.Set("evaluations", run.Get("diffs_replayed")+run.Get("snapshot_roundtrips")+run.Get("corrupted_imports"))
+	run.Set("evaluations", run.Get("diffs_replayed")+run.Get("snapshot_roundtrips")+run.Get("corrupted_imports")+run.Get("fast_sync_heights_compared"))
 	run.Set("distinct_nontrivial", run.Get("states"))
 	run.Assume = append(run.Assume, "the follower applies diffs exactly like protocol/fast.go (AddDiff, root check, CommitTree only for non-empty diffs, UpdateFromIdentityStateDiff)",
 		"snapshot corruption model: single-bit flips, byte substitutions, truncations and tar-member drop/duplicate/swap of archives <= the size bound")
